@@ -32,7 +32,8 @@ import (
 )
 
 type aobj struct {
-	id     string // region name, or "alloc"
+	id     string // region name ("recv", "param1", "global", or a sub-region "param1.path"), or "alloc"
+	root   string // for regions: the region it belongs to ("param1" for "param1.path")
 	region bool
 	fields map[string]objSet
 	cfg    map[string]bool // fields whose static type is a shared configuration type (excluded from "holds a reference into")
@@ -249,9 +250,22 @@ func (c *mrCtx) region(name string) *aobj {
 	if r := c.f.regions[name]; r != nil {
 		return r
 	}
-	r := &aobj{id: name, region: true}
+	r := &aobj{id: name, root: name, region: true}
+	if i := strings.Index(name, "."); i >= 0 {
+		r.root = name[:i]
+	}
 	c.f.regions[name] = r
 	return r
+}
+
+// what a named field of a region object leads to: a sub-region (one level: "param1.path"; deeper loads stay there).
+// Keeping the field makes the summaries of helpers precise enough to be mapped through a call whose argument is a new
+// object (`url.path = base.path` in a helper, called with the private clone of the base).
+func (c *mrCtx) sub(o *aobj, field string) *aobj {
+	if o.id != o.root || field == "" || field == "*" || field == "[]" || field == "*v" || o.id == "closure" || o.id == "global" {
+		return o
+	}
+	return c.region(o.id + "." + field)
 }
 
 func (c *mrCtx) alloc(pos token.Pos) *aobj {
@@ -308,7 +322,7 @@ func (c *mrCtx) load(objs objSet, field string, fieldType types.Type) objSet {
 	r := objSet{}
 	for o := range objs {
 		if o.region {
-			r[o] = true
+			r[c.sub(o, field)] = true
 			continue
 		}
 		r.addAll(o.fields[field])
@@ -516,8 +530,8 @@ func reach(o *aobj, seen map[*aobj]bool, out strSet) {
 
 func (c *mrCtx) noteWrite(objs objSet) {
 	for o := range objs {
-		if o.region && o.id != "closure" {
-			if c.f.writes.add(o.id) {
+		if o.region && o.root != "closure" {
+			if c.f.writes.add(o.root) {
 				c.ch = true
 			}
 		}
@@ -533,7 +547,7 @@ func (c *mrCtx) store(dst objSet, field string, v objSet, valType types.Type) {
 	cfg := configType(valType)
 	for d := range dst {
 		if d.region {
-			if cfg || d.id == "closure" {
+			if cfg || d.root == "closure" {
 				continue
 			}
 			src := strSet{}
@@ -545,8 +559,8 @@ func (c *mrCtx) store(dst objSet, field string, v objSet, valType types.Type) {
 				}
 			}
 			for s := range src {
-				if s != d.id && s != "closure" {
-					if c.f.aliases.add(d.id + "<-" + s) {
+				if rootOf(s) != d.root && s != "closure" {
+					if c.f.aliases.add(d.root + "<-" + s) {
 						c.ch = true
 					}
 				}
@@ -680,6 +694,9 @@ func (c *mrCtx) callees(call *ast.CallExpr) (fs []*mrFunc, recv ast.Expr, kind s
 
 // translate a callee region into the caller's objects at this call
 func (c *mrCtx) mapRegion(g *mrFunc, region string, recv ast.Expr, args []ast.Expr) objSet {
+	if i := strings.Index(region, "."); i >= 0 {
+		return c.load(c.mapRegion(g, region[:i], recv, args), region[i+1:], nil)
+	}
 	switch {
 	case region == "recv":
 		if recv != nil {
@@ -783,6 +800,37 @@ func (c *mrCtx) callPts(call *ast.CallExpr) objSet {
 	}
 }
 
+func rootOf(region string) string {
+	if i := strings.Index(region, "."); i >= 0 && !strings.HasPrefix(region, "fresh") {
+		return region[:i]
+	}
+	return region
+}
+
+// the output form of a summary entry: sub-regions are reported as their region
+func stripSubs(entries []string) []string {
+	seen := map[string]bool{}
+	var out []string
+	for _, e := range entries {
+		switch {
+		case strings.HasPrefix(e, "fresh."):
+			i := strings.LastIndex(e, ">")
+			e = e[:i+1] + rootOf(e[i+1:])
+		case strings.Contains(e, "<-"):
+			parts := strings.SplitN(e, "<-", 2)
+			e = rootOf(parts[0]) + "<-" + rootOf(parts[1])
+		default:
+			e = rootOf(e)
+		}
+		if !seen[e] {
+			seen[e] = true
+			out = append(out, e)
+		}
+	}
+	sort.Strings(out)
+	return out
+}
+
 var externalMutators = map[string]int{"sort.Slice": 0, "sort.SliceStable": 0, "sort.Sort": 0, "sort.Stable": 0, "sort.Strings": 0, "sort.Ints": 0}
 
 func (c *mrCtx) visitCall(call *ast.CallExpr) {
@@ -800,8 +848,8 @@ func (c *mrCtx) visitCall(call *ast.CallExpr) {
 		}
 		if recv != nil {
 			for o := range c.pts(recv) {
-				if o.region && o.id != "closure" {
-					if c.f.extern.add(name + "@" + o.id) {
+				if o.region && o.root != "closure" {
+					if c.f.extern.add(name + "@" + o.root) {
 						c.ch = true
 					}
 				}
@@ -819,7 +867,7 @@ func (c *mrCtx) visitCall(call *ast.CallExpr) {
 				// not a configuration value (those were excluded in the callee); type unknown here: any reference
 				for d := range dst {
 					if d.region {
-						if d.id == "closure" {
+						if d.root == "closure" {
 							continue
 						}
 						ss := strSet{}
@@ -831,8 +879,8 @@ func (c *mrCtx) visitCall(call *ast.CallExpr) {
 							}
 						}
 						for s := range ss {
-							if s != d.id && s != "closure" {
-								if c.f.aliases.add(d.id + "<-" + s) {
+							if rootOf(s) != d.root && s != "closure" {
+								if c.f.aliases.add(d.root + "<-" + s) {
 									c.ch = true
 								}
 							}
@@ -845,8 +893,8 @@ func (c *mrCtx) visitCall(call *ast.CallExpr) {
 			for e := range g.extern {
 				parts := strings.SplitN(e, "@", 2)
 				for o := range c.mapRegion(g, parts[1], recv, call.Args) {
-					if o.region && o.id != "closure" {
-						if c.f.extern.add(parts[0] + "@" + o.id) {
+					if o.region && o.root != "closure" {
+						if c.f.extern.add(parts[0] + "@" + o.root) {
 							c.ch = true
 						}
 					}
@@ -859,7 +907,7 @@ func (c *mrCtx) visitCall(call *ast.CallExpr) {
 func (c *mrCtx) noteReturn(v objSet) {
 	for o := range v {
 		if o.region {
-			if o.id != "closure" && c.f.returns.add(o.id) {
+			if o.root != "closure" && c.f.returns.add(o.id) {
 				c.ch = true
 			}
 			continue
@@ -1008,7 +1056,7 @@ func modrefTyped() (url []string, canon []string, stats string, uinfo, cinfo *ty
 			parts := strings.SplitN(e, "@", 2)
 			ext = append(ext, fmt.Sprintf("(%s, %s)", leanStr(parts[0]), leanStr(parts[1])))
 		}
-		line := fmt.Sprintf("(%s, %s, %s, %s, %s, [%s])", leanStr(f.display), leanBool(f.api), leanStrList(f.writes.sorted()), leanStrList(f.returns.sorted()), leanStrList(f.aliases.sorted()), strings.Join(ext, ", "))
+		line := fmt.Sprintf("(%s, %s, %s, %s, %s, [%s])", leanStr(f.display), leanBool(f.api), leanStrList(f.writes.sorted()), leanStrList(stripSubs(f.returns.sorted())), leanStrList(stripSubs(f.aliases.sorted())), strings.Join(ext, ", "))
 		if f.pkg == "url" {
 			url = append(url, line)
 		} else {
